@@ -220,6 +220,11 @@ namespace Spec
 
 def count (p : Bytes → Bool) (l : List Bytes) : Nat := (l.filter p).length
 
+/-- a `time < s` caveat whose `s` Atoi reads as an instant after `now` -/
+def timeOk (now : Int) (c : Bytes) : Bool :=
+  TimePrefix.isPrefixOf c && (match atoi (c.drop TimePrefix.length) with
+                              | some e => decide (now < e) | none => false)
+
 /-- The property's demand: right key, unaltered, exactly the three caveats (any order) for the right
     user, not yet expired. -/
 def validOk (opKey opUser : Bytes) (now : Int) (prov : Option Bytes) (id : Bytes) (cavs : List Caveat) : Bool :=
@@ -229,8 +234,7 @@ def validOk (opKey opUser : Bytes) (now : Int) (prov : Option Bytes) (id : Bytes
   && cavs.length == 3
   && count (· == Gen) (cavs.map (·.cid)) == 1
   && count (· == UserPrefix ++ opUser) (cavs.map (·.cid)) == 1
-  && count (fun c => TimePrefix.isPrefixOf c && (match atoi (c.drop TimePrefix.length) with
-                                                  | some e => decide (now < e) | none => false)) (cavs.map (·.cid)) == 1
+  && count (timeOk now) (cavs.map (·.cid)) == 1
 
 end Spec
 
